@@ -5,6 +5,7 @@ import (
 	"fmt"
 	"os"
 	"path/filepath"
+	"reflect"
 	"time"
 
 	astisub "github.com/asticode/go-astisub"
@@ -155,6 +156,28 @@ func scribble(s *astisub.Subtitles) {
 		if sa == nil {
 			return
 		}
+		// first through the pointers the reader handed out (what they point at is the caller's as well; colours
+		// excepted: they are the package's exported colour values, shared by design) ...
+		v := reflect.ValueOf(sa).Elem()
+		for i := 0; i < v.NumField(); i++ {
+			f := v.Field(i)
+			if f.Kind() != reflect.Ptr || f.IsNil() || !f.Elem().CanSet() {
+				continue
+			}
+			switch e := f.Elem(); e.Kind() {
+			case reflect.Bool:
+				e.SetBool(!e.Bool())
+			case reflect.Int, reflect.Int8, reflect.Int16, reflect.Int32, reflect.Int64:
+				e.SetInt(e.Int() + 1)
+			case reflect.Uint8:
+				e.SetUint(e.Uint() + 1)
+			case reflect.Float64:
+				e.SetFloat(e.Float() + 1)
+			case reflect.String:
+				e.SetString(e.String() + "~")
+			}
+		}
+		// ... then by replacing them
 		sa.SRTBold, sa.SRTItalics, sa.WebVTTAlign, sa.SSAFontName, sa.SSAEffect = true, true, mark, mark, mark
 		sa.TTMLColor, sa.SRTColor, sa.TTMLBackgroundColor, sa.TTMLFontFamily = &mark, &mark, &mark, &mark
 		z := 7
